@@ -181,7 +181,7 @@ func (s *Sim) Run() []any {
 	} else {
 		s.SwitchDen = 1 + s.choose(len(budgets)-1, "sched.burst")
 	}
-	dead := false
+	dead, capped := false, false
 	for {
 		var run []*task
 		for _, t := range s.tasks {
@@ -197,14 +197,12 @@ func (s *Sim) Run() []any {
 				}
 			}
 			if !all {
-				s.Deadlock = s.describeDeadlock()
 				dead = true
 			}
 			break
 		}
 		if s.Steps >= s.MaxSteps {
-			s.Deadlock = fmt.Sprintf("step cap %d reached (livelock?)", s.MaxSteps)
-			dead = true
+			dead, capped = true, true
 			break
 		}
 		var pick *task
@@ -292,7 +290,15 @@ func (s *Sim) Run() []any {
 	s.cur = nil
 	S = nil
 	runtime.RaceEnable()
-	if !dead {
+	// (no fmt / sync.Pool use while race synchronisation is disabled: pooled objects shared with
+	// the tasks would look racy)
+	if dead {
+		if capped {
+			s.Deadlock = fmt.Sprintf("step cap %d reached (livelock?)", s.MaxSteps)
+		} else {
+			s.Deadlock = s.describeDeadlock()
+		}
+	} else {
 		wg.Wait()
 	}
 	out := make([]any, len(s.tasks))
@@ -422,6 +428,11 @@ type rlocker RWMutex
 
 func (r *rlocker) Lock()   { (*RWMutex)(r).RLock() }
 func (r *rlocker) Unlock() { (*RWMutex)(r).RUnlock() }
+
+// LocksHeld returns the number of simulated locks still held (after Run: a leaked lock).
+//
+//go:norace
+func (s *Sim) LocksHeld() int { return s.lockDepth }
 
 // TaskYield lets harness code (between two API calls of a task) offer a switch.
 func TaskYield() { Y(-1) }
